@@ -123,43 +123,7 @@ races:
 	if !race {
 		return
 	}
-	// race reports
-	logs, _ := filepath.Glob(raceLog + ".*")
-	reports := 0
-	for _, lf := range logs {
-		b, _ := os.ReadFile(lf)
-		blocks := strings.Split(string(b), "==================")
-		for _, blk := range blocks {
-			if !strings.Contains(blk, "WARNING: DATA RACE") {
-				continue
-			}
-			reports++
-			// innermost repository frame of each of the two accesses
-			var frames []string
-			for _, sect := range strings.Split(blk, "\n\n") {
-				if !(strings.Contains(sect, "Read at") || strings.Contains(sect, "Write at") || strings.Contains(sect, "Previous read") || strings.Contains(sect, "Previous write")) {
-					continue
-				}
-				for _, ln := range strings.Split(sect, "\n") {
-					if m := reRaceFrame.FindStringSubmatch(ln); m != nil {
-						frames = append(frames, m[1])
-						break
-					}
-				}
-			}
-			sort.Strings(frames)
-			key := strings.Join(frames, " <-> ")
-			if key == "" {
-				key = "harness-only"
-				ctx.Count("race_reports_outside_repository", 1)
-				continue
-			}
-			ctx.Class("race|" + key)
-			p := saveArtefact(ctx.Prop, "race", blk)
-			ctx.Violate(Violation{Kind: "data_race", Lane: "race-detector", What: "the Go race detector reported a data race between " + key + ": " + trunc(strings.TrimSpace(blk), 900),
-				Case: map[string]interface{}{"report": p, "mode": mode}, Key: "c05|race|" + key})
-		}
-	}
+	reports := collectRaceReports(ctx, raceLog, "c05", map[string]interface{}{"mode": mode})
 	ctx.Count("race_reports", int64(reports))
 	ctx.Count("race_rounds", 1)
 }
@@ -676,4 +640,49 @@ type regKeyed struct {
 	Key  string
 	Kind string
 	Arg  string
+}
+
+// collectRaceReports parses the race detector's log files (GORACE log_path=prefix): one violation per
+// distinct pair of innermost repository frames of the two racing accesses. Returns the number of reports.
+func collectRaceReports(ctx *Ctx, raceLog string, keyPrefix string, extra map[string]interface{}) int {
+	logs, _ := filepath.Glob(raceLog + ".*")
+	reports := 0
+	for _, lf := range logs {
+		b, _ := os.ReadFile(lf)
+		blocks := strings.Split(string(b), "==================")
+		for _, blk := range blocks {
+			if !strings.Contains(blk, "WARNING: DATA RACE") {
+				continue
+			}
+			reports++
+			// innermost repository frame of each of the two accesses
+			var frames []string
+			for _, sect := range strings.Split(blk, "\n\n") {
+				if !(strings.Contains(sect, "Read at") || strings.Contains(sect, "Write at") || strings.Contains(sect, "Previous read") || strings.Contains(sect, "Previous write")) {
+					continue
+				}
+				for _, ln := range strings.Split(sect, "\n") {
+					if m := reRaceFrame.FindStringSubmatch(ln); m != nil {
+						frames = append(frames, m[1])
+						break
+					}
+				}
+			}
+			sort.Strings(frames)
+			key := strings.Join(frames, " <-> ")
+			if key == "" {
+				ctx.Count("race_reports_outside_repository", 1)
+				continue
+			}
+			ctx.Class("race|" + key)
+			p := saveArtefact(ctx.Prop, "race", blk)
+			c := map[string]interface{}{"report": p}
+			for k, v := range extra {
+				c[k] = v
+			}
+			ctx.Violate(Violation{Kind: "data_race", Lane: "race-detector", What: "the Go race detector reported a data race between " + key + ": " + trunc(strings.TrimSpace(blk), 900),
+				Case: c, Key: keyPrefix + "|race|" + key})
+		}
+	}
+	return reports
 }
